@@ -55,9 +55,9 @@ CHECKS = {
     floors={'C18.shift': {'negative-count': 0.1, 'shl-out-of-range': 0.1}}),
 
  'C09': dict(
-    rule="every raw x in [-2pi, 2pi] for sin and cos against long-double libm with the property's own bound, plus generated (x,k) for exact periodicity; non-trivial = r > 1.2, |x| > pi/2, k != 0",
+    rule="every raw x in [-2pi, 2pi] for sin and cos against long-double libm with the property's own bound, plus generated (x,k) with raw |x|, |x + k*2phi| < 2^62 (values below 2^46) for exact periodicity; non-trivial = r > 1.2, |x| > pi/2, k != 0",
     clauses=[sweep('C09.acc'), rc('C09.period', 40000000, 800000000)],
-    floors={'C09.period': {'|k|>4': 0.5}}),
+    floors={'C09.period': {'|k|>4': 0.5, 'raw-beyond-2^46': 0.2}}),
  'C10': dict(
     rule="every raw x in [-pi, pi] for tan against long-double libm, plus generated x up to 62 bits for oddness, period and the pole set; non-trivial = reciprocal branch, beyond pi/2, near a pole, reduction executed",
     clauses=[sweep('C10.acc'), rc('C10.rel', 40000000, 800000000)],
